@@ -34,6 +34,12 @@ def classify(n):
             n, p = p, p._parent
     if isinstance(p, ast.BinOp) and isinstance(p.op, ast.Mod) and p.left is n:
         return "parity/alignment"
+    # rel_address + k  /  rel_address - k (k literal) inside the subtrahend of a difference: target - (rel + 2)
+    q, m = p, n
+    while isinstance(q, ast.BinOp) and isinstance(q.op, (ast.Add, ast.Sub)) and isinstance(q.right if q.left is m else q.left, ast.Constant):
+        m, q = q, q._parent
+    if isinstance(q, ast.BinOp) and isinstance(q.op, ast.Sub) and q.right is m and m is not n:
+        return "pc-relative difference"
     if isinstance(p, ast.BinOp) and isinstance(p.op, ast.Sub) and p.right is n:
         return "pc-relative difference"
     if isinstance(p, ast.BinOp) and isinstance(p.op, ast.Sub) and p.left is n:
